@@ -1,4 +1,5 @@
 import TV.Proofs.WorkQueueSafety
+import TV.Proofs.MonitorWQ
 /-!
 # C09 — WorkQueue honours its worker count and its queue length
 
@@ -44,5 +45,20 @@ theorem C09_full_branch_threshold :
 theorem C09_resume :
     ∀ (s : St) (it : Item), s.disp = .fullWait it → 0 < s.tokens → (step? s .tok).isSome = true := Safety.C09_resume
 
+
+/-! ### the model passes the monitors the driver applies to the implementation
+
+`mstOf s` is the bookkeeping the driver has recorded from the script when the implementation has answered like
+the model; `obsOf s` is the model's own observation. -/
+theorem C09_model_passes_monitor_workers (W L : Nat) (s : St) (h : Reach W L s) :
+    Mon.workersOK (MonSound.mstOf s) (Driver.WQ.obsOf s) = true := MonSound.workersOK_sound h
+
+/-- (false for `L = 0`: the dispatcher then pops an empty queue — witness in TV/Proofs/MonitorWQ.lean.) -/
+theorem C09_model_passes_monitor_work_conserving (W L : Nat) (s : St) (h : Reach W L s) (hL : 1 ≤ L) (hq : quiescent s) :
+    Mon.workConserving (MonSound.mstOf s) (Driver.WQ.obsOf s) = true := MonSound.workConserving_sound hL h hq
+
+theorem C09_model_passes_monitor_backpressure (W L : Nat) (s : St) (h : Reach W L s) (hs : s.stopped = false) :
+    Mon.outstanding (MonSound.mstOf s) (Driver.WQ.obsOf s) ≤ (MonSound.mstOf s).Lmax + 2 * (MonSound.mstOf s).W + 1 :=
+  MonSound.backPressureUpper_sound h hs
 
 end TV.C09
